@@ -41,7 +41,7 @@ def strategy_(draw):
     # "current values" may also have been assigned after the problem was transcribed (e.g. after an earlier solve or query)
     late = {k: v for k, v in {"pg": [draw(gen.small()) for _ in range(n)], "pr": [draw(gen.small()) for _ in range(N)], "pw": draw(gen.small())}.items() if draw(st.integers(0, 2)) == 0}
     return {"n": n, "mu": mu, "method": m, "A": A, "B": B, "T": draw(st.sampled_from([1.0, 2.0, 0.5])), "t0": draw(st.sampled_from([0.0, 1.0])), "umax": draw(st.sampled_from([0.5, 5.0])),
-            "args": args, "vals": vals, "current": current, "late": late, "rng": draw(st.integers(0, 2**31 - 1))}
+            "args": args, "vals": vals, "current": current, "late": late, "labels": draw(st.sampled_from([None, None, "named", "many"])), "rng": draw(st.integers(0, 2**31 - 1))}
 
 
 def strategy(tier):
@@ -53,7 +53,7 @@ def nontrivial(case):
 
 
 def classify(case):
-    labs = ["method:" + case["method"]["cls"], "grid:" + case["method"]["grid"]["cls"]] + ["arg:" + a for a in case["args"]] + ["unlisted:" + a for a in sorted({"pg", "pr", "pw"} - set(case["args"]))]
+    labs = ["method:" + case["method"]["cls"], "grid:" + case["method"]["grid"]["cls"], "labels:%s" % case.get("labels")] + ["arg:" + a for a in case["args"]] + ["unlisted:" + a for a in sorted({"pg", "pr", "pw"} - set(case["args"]))]
     if "xguess" in case["args"] and case["args"][-1] != "xguess":
         labs.append("state guess followed by another argument")
     if set(case.get("late", {})) - set(case["args"]):
@@ -149,6 +149,18 @@ def imperative(case, solver_opts, start_only=False):
     return [DMa(sol.value(r)) for r in res]
 
 
+def make_function(ocp, S, case, name):
+    """to_function with the generated labelling: none, user labels that are not in alphabetical order, or more than ten outputs."""
+    args, res = arg_exprs(ocp, S, case["args"]), results_of(ocp, S)
+    lab = case.get("labels")
+    if lab == "named":
+        return ocp.to_function(name, args, res, ["in_%s" % a for a in case["args"]], ["x_traj", "u_traj", "J"]), 3
+    if lab == "many":
+        extra = [ocp.value(ocp.objective) * (j + 2) for j in range(9)]        # outputs o3..o11: 2J, 3J, ...
+        return ocp.to_function(name, args, res + extra), 3
+    return ocp.to_function(name, args, res), 3
+
+
 def check(case, ctx):
     m = case["method"]
     feats = {"method": m["cls"], "args": case["args"], "guess_args": sorted({"xguess", "uguess"} & set(case["args"]))}
@@ -157,11 +169,14 @@ def check(case, ctx):
     opts0 = {"ipopt.max_iter": 0, "error_on_fail": False}
     ocp, S = make(case, opts0)
     try:
-        f0 = ocp.to_function("f0", arg_exprs(ocp, S, case["args"]), results_of(ocp, S))
+        f0, _ = make_function(ocp, S, case, "f0")
     except Exception as ex:
         fails.append(Fail("to_function-raises", feats, {"message": str(ex).strip().splitlines()[-1][:160]}))
         return fails
-    out0 = [DMa(o) for o in f0(*arg_values(case))] if len(case["args"]) else []
+    raw0 = [DMa(o) for o in f0(*arg_values(case))] if len(case["args"]) else []
+    out0 = raw0[:3]
+    if case.get("labels") == "many" and raw0 and not all(close(raw0[3 + j], (j + 2) * raw0[2], 1e-9, 1e-10) for j in range(9)):
+        fails.append(Fail("output-order", dict(feats, labels="many"), {"objective": raw0[2], "multiples": [float(r.reshape(-1)[0]) for r in raw0[3:]]}))
     want0 = imperative(case, opts0, start_only=True)
     names = ["states@control", "controls@control-", "objective"]
     for nm, a, b in zip(names, out0, want0):
@@ -175,9 +190,9 @@ def check(case, ctx):
     # (i) converged solve
     optsC = {"ipopt.tol": 1e-10, "ipopt.max_iter": 200}
     ocp, S = make(case, optsC)
-    fC = ocp.to_function("fC", arg_exprs(ocp, S, case["args"]), results_of(ocp, S))
+    fC, _ = make_function(ocp, S, case, "fC")
     try:
-        outC = [DMa(o) for o in fC(*arg_values(case))]
+        outC = [DMa(o) for o in fC(*arg_values(case))][:3]
         wantC = imperative(case, optsC)
     except Exception as ex:
         raise HarnessInconclusive("solver failed: %s" % str(ex)[:60])
